@@ -245,6 +245,64 @@ func CheckKinds(run *core.Run, prog *load.Program) {
 			}
 			r := f.Explore(sb, si, cfgx.Cuts{Nodes: cut})
 			run.Check("G-KINDS/component-every-path", k+"."+comp, cpos, len(r.Exits) == 0, fmt.Sprintf("the %s case can be left without descending into %s (an early return or a condition skips it)", k, comp))
+			// inside a loop over the components, every iteration descends: from the start of the loop body
+			// the next iteration (post statement / condition) must not be reachable without the call
+			for _, s := range f.Sites() {
+				if s.Callee != fn || !within(cl, s.Call) || !cut[s.Call] {
+					continue
+				}
+				for _, enc := range enclosing(cl, s.Call) {
+					fs, ok := enc.(*ast.ForStmt)
+					if !ok || len(fs.Body.List) == 0 {
+						continue
+					}
+					bb, bi := firstNodeWithin(f, fs.Body)
+					if bb < 0 {
+						continue
+					}
+					rr := f.Explore(bb, bi, cfgx.Cuts{Nodes: map[ast.Node]bool{s.Call: true}})
+					skipped := len(rr.Exits) > 0
+					if fs.Post != nil && rr.Passed(fs.Post) {
+						skipped = true
+					}
+					if fs.Cond != nil && rr.Passed(fs.Cond) {
+						skipped = true
+					}
+					run.Check("G-KINDS/component-every-iteration", k+"."+comp, cpos, !skipped, fmt.Sprintf("an iteration of the loop over %s in the %s case can skip the descent (a `continue`, `break` or condition inside the loop): some components' imports are then not discovered", comp, k))
+				}
+			}
+		}
+	}
+	// nothing else is descended into: an import discovered for something the printer never prints is an unused import
+	for _, cc := range ts.Body.List {
+		cl := cc.(*ast.CaseClause)
+		var kind string
+		for _, e := range cl.List {
+			kind = strings.Replace(types.ExprString(e), "types.", "", 1)
+		}
+		row, known := writerTable[kind]
+		for _, s := range f.Sites() {
+			if s.Callee != fn || !within(cl, s.Call) || len(s.Call.Args) == 0 {
+				continue
+			}
+			arg := types.ExprString(s.Call.Args[0])
+			okArg := false
+			if known {
+				for _, comp := range row.Components {
+					last := comp
+					if i := strings.LastIndexByte(comp, '.'); i >= 0 {
+						last = comp[i+1:]
+					}
+					first := comp
+					if i := strings.IndexByte(comp, '.'); i >= 0 {
+						first = comp[:i]
+					}
+					if accessorChain(arg, first, last, comp) && !strings.Contains(arg, "Constraint(") && !strings.Contains(arg, "TypeParams(") && !strings.Contains(arg, "Underlying(") {
+						okArg = true
+					}
+				}
+			}
+			run.Check("G-KINDS/only-printed", kind+":"+arg, prog.Pos(s.Call.Pos()), okArg, fmt.Sprintf("the %s case descends into %s, which the type printer does not print at this node: packages found there are imported but never referred to (unused import) and the walk may not terminate (constraints can refer back to their type parameter)", kind, arg))
 		}
 	}
 	run.Floor("G-KINDS/case", 11)
